@@ -92,18 +92,250 @@ def analyse(source):
     raise Unrecognised('some keys are upper-cased and some are not: %r' % cls)
 
 
+# ----------------------------------------------------------------------------------------------
+# round 2: the facts of sdss_flagval / sdss_flagname / sdss_flagexist that the model hard-coded
+
+def _func(tree, name):
+    fn = next((n for n in tree.body if isinstance(n, ast.FunctionDef) and n.name == name), None)
+    if fn is None:
+        raise Unrecognised('no function %s' % name)
+    return fn
+
+
+def _np_call(e):
+    """np.T(arg) -> (T, arg)"""
+    if isinstance(e, ast.Call) and isinstance(e.func, ast.Attribute) and isinstance(e.func.value, ast.Name) \
+            and e.func.value.id == 'np' and len(e.args) == 1 and not e.keywords:
+        return e.func.attr, e.args[0]
+    raise Unrecognised('not a numpy scalar constructor: %s' % ast.dump(e)[:80])
+
+
+def _upper_of(e, var):
+    """is e `var.upper()` (True) or plain `var` (False)?"""
+    if _is_upper_call(e) and isinstance(e.func.value, ast.Name) and e.func.value.id == var:
+        return True
+    if isinstance(e, ast.Name) and e.id == var:
+        return False
+    raise Unrecognised('expected %s or %s.upper(): %s' % (var, var, ast.dump(e)[:80]))
+
+
+def _one(cls, what):
+    cls = set(cls)
+    if len(cls) != 1:
+        raise Unrecognised('%s is not uniform: %r' % (what, sorted(cls)))
+    return cls.pop()
+
+
+def _label_uppers(fn):
+    """the two forms  bitnames = [bitname.upper()]  /  bitnames = [b.upper() for b in bitname]"""
+    found = []
+    for node in ast.walk(fn):
+        if isinstance(node, ast.Assign) and len(node.targets) == 1 and isinstance(node.targets[0], ast.Name) \
+                and node.targets[0].id == 'bitnames':
+            v = node.value
+            if isinstance(v, ast.List) and len(v.elts) == 1:
+                found.append(_upper_of(v.elts[0], 'bitname'))
+            elif isinstance(v, ast.ListComp) and len(v.generators) == 1 and isinstance(v.generators[0].target, ast.Name) \
+                    and not v.generators[0].ifs and isinstance(v.generators[0].iter, ast.Name) and v.generators[0].iter.id == 'bitname':
+                found.append(_upper_of(v.elt, v.generators[0].target.id))
+            else:
+                raise Unrecognised('bitnames assigned in an unknown way')
+    if len(found) != 2:
+        raise Unrecognised('expected two assignments to bitnames in %s, found %d' % (fn.name, len(found)))
+    return _one(found, 'upper-casing of the labels in %s' % fn.name)
+
+
+def _group_uppers(fn):
+    """every use of the parameter `flagname`: flagname.upper() or flagname itself"""
+    found = []
+    consumed = set()
+    for node in ast.walk(fn):
+        if _is_upper_call(node) and isinstance(node.func.value, ast.Name) and node.func.value.id == 'flagname':
+            found.append(True)
+            consumed.add(id(node.func.value))
+    for node in ast.walk(fn):
+        if isinstance(node, ast.Name) and node.id == 'flagname' and isinstance(node.ctx, ast.Load) and id(node) not in consumed:
+            found.append(False)
+    if not found:
+        raise Unrecognised('%s never uses flagname' % fn.name)
+    return _one(found, 'upper-casing of the group in %s' % fn.name)
+
+
+def analyse_queries(tree):
+    facts = {}
+    # ---- sdss_flagval: flagvalue = np.T(0) ... flagvalue OP= np.T(2)**np.T(maskbits[flagu][bit])
+    fv = _func(tree, 'sdss_flagval')
+    inits = [n for n in ast.walk(fv) if isinstance(n, ast.Assign) and len(n.targets) == 1
+             and isinstance(n.targets[0], ast.Name) and n.targets[0].id == 'flagvalue']
+    augs = [n for n in ast.walk(fv) if isinstance(n, ast.AugAssign) and isinstance(n.target, ast.Name) and n.target.id == 'flagvalue']
+    if len(inits) != 1 or len(augs) != 1:
+        raise Unrecognised('sdss_flagval: expected one initialisation and one augmented assignment of flagvalue')
+    t0, a0 = _np_call(inits[0].value)
+    if not (isinstance(a0, ast.Constant) and a0.value == 0):
+        raise Unrecognised('flagvalue not initialised with 0')
+    aug = augs[0]
+    if isinstance(aug.op, ast.Add):
+        facts['accumulate_is_add'] = True
+    elif isinstance(aug.op, ast.BitOr):
+        facts['accumulate_is_add'] = False
+    else:
+        raise Unrecognised('flagvalue accumulated with %s' % type(aug.op).__name__)
+    v = aug.value
+    if not (isinstance(v, ast.BinOp) and isinstance(v.op, ast.Pow)):
+        raise Unrecognised('accumulated term is not a power')
+    t1, base = _np_call(v.left)
+    t2, expo = _np_call(v.right)
+    if not (isinstance(base, ast.Constant) and base.value == 2):
+        raise Unrecognised('base of the power is not 2')
+    if not (isinstance(expo, ast.Subscript) and isinstance(expo.value, ast.Subscript)
+            and isinstance(expo.value.value, ast.Name) and expo.value.value.id == 'maskbits'):
+        raise Unrecognised('exponent is not maskbits[..][..]')
+    dt = _one([t0, t1, t2], 'dtype of the accumulation')
+    if dt == 'uint64':
+        facts['acc_dtype_uint64'] = True
+    elif dt == 'int64':
+        facts['acc_dtype_uint64'] = False
+    else:
+        raise Unrecognised('accumulation dtype %s' % dt)
+    # ---- sdss_flagname: bits = [bit for bit in range(N) if (flagvaluint & (one << np.uint64(bit))) != 0]
+    fn = _func(tree, 'sdss_flagname')
+    comps = [n for n in ast.walk(fn) if isinstance(n, ast.Assign) and len(n.targets) == 1 and isinstance(n.targets[0], ast.Name)
+             and n.targets[0].id == 'bits' and isinstance(n.value, ast.ListComp)]
+    if len(comps) != 1:
+        raise Unrecognised('sdss_flagname: no single list comprehension for bits')
+    lc = comps[0].value
+    g = lc.generators[0]
+    if len(lc.generators) != 1 or not (isinstance(lc.elt, ast.Name) and isinstance(g.target, ast.Name) and lc.elt.id == g.target.id):
+        raise Unrecognised('bits comprehension has an unknown shape')
+    it = g.iter
+    if not (isinstance(it, ast.Call) and isinstance(it.func, ast.Name) and it.func.id == 'range' and not it.keywords):
+        raise Unrecognised('bit scan does not iterate over range(...)')
+    args = it.args
+    if len(args) == 2 and isinstance(args[0], ast.Constant) and args[0].value == 0:
+        args = args[1:]
+    if not (len(args) == 1 and isinstance(args[0], ast.Constant) and isinstance(args[0].value, int) and 0 <= args[0].value <= 4096):
+        raise Unrecognised('bit scan range is not range(N)')
+    facts['scan_bits'] = args[0].value
+    bitvar = g.target.id
+    if len(g.ifs) != 1:
+        raise Unrecognised('bit scan has no single test')
+    t = g.ifs[0]
+    ok = (isinstance(t, ast.Compare) and len(t.ops) == 1 and isinstance(t.ops[0], ast.NotEq)
+          and isinstance(t.comparators[0], ast.Constant) and t.comparators[0].value == 0
+          and isinstance(t.left, ast.BinOp) and isinstance(t.left.op, ast.BitAnd)
+          and isinstance(t.left.left, ast.Name) and t.left.left.id == 'flagvaluint'
+          and isinstance(t.left.right, ast.BinOp) and isinstance(t.left.right.op, ast.LShift)
+          and isinstance(t.left.right.left, ast.Name) and t.left.right.left.id == 'one')
+    if ok:
+        ty, arg = _np_call(t.left.right.right)
+        ok = ty == 'uint64' and isinstance(arg, ast.Name) and arg.id == bitvar
+    if not ok:
+        raise Unrecognised('bit test is not (flagvaluint & (one << np.uint64(bit))) != 0')
+    env = _collect_local_assigns(fn)
+    for name, want in (('flagvaluint', 'flagvalue'), ('one', 1)):
+        vals = env.get(name, [])
+        if len(vals) != 1:
+            raise Unrecognised('%s not assigned exactly once' % name)
+        ty, arg = _np_call(vals[0])
+        if ty != 'uint64' or not ((isinstance(arg, ast.Name) and arg.id == want) or (isinstance(arg, ast.Constant) and arg.value == want)):
+            raise Unrecognised('%s is not np.uint64(%s)' % (name, want))
+    # reverse lookup: f = [x for x in maskbits[flagu].items() if x[1] == bit] ; retval.append(f[I][0])
+    fl = [v for v in env.get('f', []) if isinstance(v, ast.ListComp)]
+    if len(fl) != 1:
+        raise Unrecognised('reverse lookup list f not found')
+    lc = fl[0]
+    g = lc.generators[0]
+    ok = (len(lc.generators) == 1 and isinstance(g.target, ast.Name) and isinstance(lc.elt, ast.Name) and lc.elt.id == g.target.id
+          and isinstance(g.iter, ast.Call) and isinstance(g.iter.func, ast.Attribute) and g.iter.func.attr == 'items'
+          and isinstance(g.iter.func.value, ast.Subscript) and isinstance(g.iter.func.value.value, ast.Name)
+          and g.iter.func.value.value.id == 'maskbits' and len(g.ifs) == 1)
+    if ok:
+        c = g.ifs[0]
+        ok = (isinstance(c, ast.Compare) and len(c.ops) == 1 and isinstance(c.ops[0], ast.Eq)
+              and isinstance(c.left, ast.Subscript) and isinstance(c.left.value, ast.Name) and c.left.value.id == g.target.id
+              and isinstance(_slice(c.left), ast.Constant) and _slice(c.left).value == 1
+              and isinstance(c.comparators[0], ast.Name))
+    if not ok:
+        raise Unrecognised('reverse lookup is not [x for x in maskbits[g].items() if x[1] == bit]')
+    apps = [n for n in ast.walk(fn) if isinstance(n, ast.Call) and isinstance(n.func, ast.Attribute) and n.func.attr == 'append'
+            and isinstance(n.func.value, ast.Name) and n.func.value.id == 'retval']
+    if len(apps) != 1 or len(apps[0].args) != 1:
+        raise Unrecognised('retval.append(...) not found exactly once')
+    a = apps[0].args[0]
+    ok = (isinstance(a, ast.Subscript) and isinstance(_slice(a), ast.Constant) and _slice(a).value == 0
+          and isinstance(a.value, ast.Subscript) and isinstance(a.value.value, ast.Name) and a.value.value.id == 'f')
+    if not ok:
+        raise Unrecognised('appended label is not f[I][0]')
+    idx = _slice(a.value)
+    if isinstance(idx, ast.UnaryOp) and isinstance(idx.op, ast.USub) and isinstance(idx.operand, ast.Constant):
+        idxv = -idx.operand.value
+    elif isinstance(idx, ast.Constant):
+        idxv = idx.value
+    else:
+        raise Unrecognised('index of f is not a constant')
+    if idxv == 0:
+        facts['lookup_first'] = True
+    elif idxv == -1:
+        facts['lookup_first'] = False
+    else:
+        raise Unrecognised('f[%r]' % idxv)
+    # ---- upper-casing of the arguments
+    fe = _func(tree, 'sdss_flagexist')
+    facts['upper_group'] = _one([_group_uppers(fv), _group_uppers(fn), _group_uppers(fe)], 'upper-casing of the group name')
+    facts['upper_labels'] = _one([_label_uppers(fv), _label_uppers(fe)], 'upper-casing of the labels')
+    # ---- sdss_flagexist: l = sum(which) == len(which)
+    ls = [v for v in _collect_local_assigns(fe).get('l', []) if not (isinstance(v, ast.Constant) and v.value is False)]
+    if len(ls) != 1:
+        raise Unrecognised('sdss_flagexist: l not assigned exactly once (besides l = False)')
+    v = ls[0]
+
+    def is_call(e, f):
+        return isinstance(e, ast.Call) and isinstance(e.func, ast.Name) and e.func.id == f and len(e.args) == 1 \
+            and isinstance(e.args[0], ast.Name) and e.args[0].id == 'which'
+    if isinstance(v, ast.Compare) and len(v.ops) == 1 and isinstance(v.ops[0], ast.Eq) and is_call(v.left, 'sum') and is_call(v.comparators[0], 'len'):
+        facts['exist_all'] = True
+    elif is_call(v, 'all'):
+        facts['exist_all'] = True
+    elif is_call(v, 'any'):
+        facts['exist_all'] = False
+    else:
+        raise Unrecognised('sdss_flagexist: unknown rule for l')
+    return facts
+
+
+def coq_bool(b):
+    return 'true' if b else 'false'
+
+
 def generate(repo):
     path = os.path.join(repo, 'pydl', 'pydlutils', 'sdss.py')
     info = {'source': path, 'recognised': False}
     try:
-        up, n = analyse(open(path).read())
+        src = open(path).read()
+        up, n = analyse(src)
+        facts = analyse_queries(ast.parse(src))
     except (Unrecognised, SyntaxError, OSError) as e:
         info['why'] = str(e)
         return None, info
-    info.update(recognised=True, load_upper=up, keys=n)
-    text = ('(* GENERATED by translate/c07.py from pydl/pydlutils/sdss.py (set_maskbits) -- do not edit. *)\n'
-            '(* does set_maskbits upper-case the group, label and alias names it stores?  (%d key expressions) *)\n'
-            'Definition load_upper : bool := %s.\n' % (n, 'true' if up else 'false'))
+    info.update(recognised=True, load_upper=up, keys=n, facts=facts)
+    text = ('(* GENERATED by translate/c07.py from pydl/pydlutils/sdss.py -- do not edit. *)\n'
+            '(* set_maskbits: are the group, label and alias names upper-cased when stored?  (%d key expressions) *)\n'
+            'Definition load_upper : bool := %s.\n'
+            '(* sdss_flagname: bits = [bit for bit in range(N) if (flagvaluint & (one << np.uint64(bit))) != 0] *)\n'
+            'Definition scan_bits : nat := %d.\n'
+            '(* sdss_flagname: retval.append(f[0][0]) -- the first (true) or the last (false) label carrying the bit *)\n'
+            'Definition lookup_first : bool := %s.\n'
+            '(* sdss_flagval: flagvalue += (true) or |= (false)  np.T(2)**np.T(bit);  T = uint64 (true) or int64 (false) *)\n'
+            'Definition accumulate_is_add : bool := %s.\n'
+            'Definition acc_dtype_uint64 : bool := %s.\n'
+            '(* .upper() on the group name (all three query functions) and on the labels (sdss_flagval, sdss_flagexist) *)\n'
+            'Definition upper_group : bool := %s.\n'
+            'Definition upper_labels : bool := %s.\n'
+            '(* sdss_flagexist: l = sum(which) == len(which)  (true)  or any(which) (false) *)\n'
+            'Definition exist_all : bool := %s.\n'
+            % (n, coq_bool(up), facts['scan_bits'], coq_bool(facts['lookup_first']), coq_bool(facts['accumulate_is_add']),
+               coq_bool(facts['acc_dtype_uint64']), coq_bool(facts['upper_group']), coq_bool(facts['upper_labels']),
+               coq_bool(facts['exist_all'])))
     return text, info
 
 
